@@ -17,7 +17,7 @@ EXPECTED_LABELS = ['raw: digest == H(H(reference pre-image))', 'raw: HASH_ONE + 
 
 def bounds(tier):
     return dict(n_in='1..3', n_out='0..3', hashtype='one symbolic byte (all 256 values)', inIdx='0..n_in (incl. out of range)',
-                subscript='token sequences of <= %d tokens from {OP_CODESEPARATOR, symbolic opcode byte 0x4f..0xff, push of 1..3 symbolic bytes}'
+                subscript='token sequences of <= %d tokens from {OP_CODESEPARATOR, symbolic opcode byte 0x4f..0xff, push of 1..3 symbolic bytes, non-minimal PUSHDATA1/2/4 pushes}'
                           % (3 if tier == 'quick' else 4), witness='present/absent', tx='mutable and immutable')
 
 
@@ -29,6 +29,12 @@ def mk_tokens(ctx, shape):
             toks.append(('op', 0xab))
         elif ch == 'o':
             toks.append(('op', ctx.int('op%d' % k, 0x4f, 0xff)))
+        elif ch == 'P':      # non-minimal OP_PUSHDATA1 of 2 bytes
+            toks.append(('push', ctx.B(bytes([0x4c, 2])), ctx.bytes('pd%d' % k, 2)))
+        elif ch == 'Q':      # non-minimal OP_PUSHDATA2 of 1 byte
+            toks.append(('push', ctx.B(bytes([0x4d, 1, 0])), ctx.bytes('pd%d' % k, 1)))
+        elif ch == 'R':      # OP_PUSHDATA4 of zero bytes
+            toks.append(('push', ctx.B(bytes([0x4e, 0, 0, 0, 0])), ctx.B(b'')))
         else:
             n = int(ch)
             toks.append(('push', ctx.B(bytes([n])), ctx.bytes('pd%d' % k, n)))
@@ -79,7 +85,7 @@ HARNESSES = {'raw': h_raw, 'wrap': h_wrap}
 def instances(tier):
     out = []
     small = [0, 1, 2]
-    subs_q = ['', 'c', 'o', '1', 'co', 'oc', '1c', 'c1', '2o', 'o3', 'coc', 'o1o', '1o1', 'c2c', 'ooo']
+    subs_q = ['', 'c', 'o', '1', 'co', 'oc', '1c', 'c1', '2o', 'o3', 'coc', 'o1o', '1o1', 'c2c', 'ooo', 'P', 'cQ', 'Rc', 'PoQ']
     subs_t = subs_q + ['cc', '11', '3c', 'c3', 'occo', 'c1c1', '1c2o', 'oooo', '2c2c', 'o2co']
     subs = subs_q if tier == 'quick' else subs_t
     n = 0
